@@ -156,6 +156,7 @@ impl TabSut {
         let d = self.table.verif_dump();
         let t = &self.table;
         inv::check_structure(&d, inv::Which { lawful_hash: true }, &|i| t.verif_bucket(i).map(|e| plan_hash(e.id)))?;
+        let _: &CheckAlloc = self.table.allocator();
         if self.table.len() != self.model.len() || self.table.is_empty() != self.model.is_empty() {
             return Err(format!("len() = {} but the reference multiset holds {}", self.table.len(), self.model.len()));
         }
